@@ -50,6 +50,11 @@ CHECKS["C17"] = dict(cat=MC, engine="E3 loom (real LoadBalanceConnector::connect
    text="Concurrent round robin: 2-3 loom threads x 1-3 selections each through the real connect() with the cursor switched to a loom atomic (H2), every interleaving: each member selected exactly k times, recorded member = used member. Sequential: member counts 1..5 x every cursor offset x every window; hashBy: 7 string key expressions (incl. bare request.target / request.source) x a 36-request pool in which equal key strings arise from different address forms, twice; non-string keys must be rejected by init; random: members only.",
    note="Trusts loom's model of the atomic; tokio locks of per-thread contexts are uncontended. The frequency clause of `random` is SAMPLED (4000 draws), labelled as such. Cursor wrap at usize::MAX out of reach.",
    ref="DESIGN.md §3 C17")
+CHECKS["C15"] = dict(cat=MC, engine="E2 explicit-state BFS over reload histories + E1 xsched race exploration",
+   technique="explicit-state BFS (state = canonical GET /rules output) over all reload events from every reachable state on the real handlers; stateless exhaustive schedule exploration (deviation bound 3, thorough 4) of rules_post racing process_request with injected lock contention",
+   text="Histories: from every reachable rule-list state and from non-initial histories up to depth 3 (thorough 4), every event - POST of each of 4 valid lists, of each list broken at each position by a syntax error / type error / unknown target, GET-then-POST-back - runs through the real post_rules/get_rules handlers; after each event 6 probe requests are decided by the real process_request and compared with the first-match reference for the list that must be in force. Race: 1-2 rules_post callers, 2 process_request tasks whose decision distinguishes old, new and mixed evaluation, a request that starts after the POST returned, plus a read-holder gate and a no-op writer that make every lock acquisition a scheduling point.",
+   note="Trusts: serde deserializer = the axum extractor's; lock-contention injector models other worker threads. main()'s dispatch loop and the HTTP layer are only reachable in the real binary (E4 part).",
+   ref="DESIGN.md §3 C15")
 NOT_YET = "check not built yet in this revision (see DESIGN.md §3 for the planned model-checking design)"
 def main():
     checks = []
@@ -83,7 +88,7 @@ def main():
             "add_only": True,
         },
         "engines": [
-            {"name": "E1 xsched", "path": "harness/src/verif/xsched.rs", "serves_properties": ["C14"], "kind_free_text": "stateless deviation-bounded DFS over task schedules and scripted environment answers of real async code"},
+            {"name": "E1 xsched", "path": "harness/src/verif/xsched.rs", "serves_properties": ["C14", "C15"], "kind_free_text": "stateless deviation-bounded DFS over task schedules and scripted environment answers of real async code"},
             {"name": "E3 loom", "path": "harness/src/verif/c17.rs", "serves_properties": ["C17"], "kind_free_text": "loom exhaustive interleavings of the real load balancer (feature loomlb => cfg(redproxy_verif_loom))"},
             {"name": "E2 xseq", "path": "harness/src/verif/", "serves_properties": [p for p in CHECKS], "kind_free_text": "bounded-exhaustive operation-sequence / input-shape enumeration on the real code vs reference model"},
         ],
